@@ -31,6 +31,11 @@ def run(ctx):
                                 "hit exactly on equal multisets / unordered pairs, misses recompute from this call's arrays; get_cached_new_tree's key determines alpha (in-place change on the "
                                 "same object misses), the proposal caches get the current alpha explicitly, clear_proposal_dist_caches empties exactly the three proposal caches. "
                                 "Bounded: shadow runs comparing every memoised call with its undecorated original / an independent recomputation over call histories.")
+    if ctx.tier == "thorough":
+        from vcheck import lean as L
+
+        for f_ in ("MGeom.lean",):
+            L.check_file(ctx, f_, "C14")
     from bounded import memo as M
 
     n1, p1 = M.convolution_histories(ctx.seed)
